@@ -516,3 +516,79 @@ def compare_hist(tr, st, recs, rel=1e-7):
     if st.get('locked') is not None and (st['locked'] == '1') != tr['final_locked']:
         return f"final lock flag {tr['final_locked']} vs model {st['locked']}"
     return None
+
+
+# --------------------------------------------------------------------------------------------
+# lock-step correspondence: the implementation's state at instant j-1 is fed to the model's step
+# and the model's instant j is compared with the implementation's (no error accumulation, no
+# growth of the exact rationals; the shape the inductive theorems have)
+# --------------------------------------------------------------------------------------------
+
+def lockstep_requests(spec, tr, max_steps=None):
+    """[(instant index, request line)] for every instant that follows directly from recorded state"""
+    n = min(len(tr['els'][0]['angular position']), len(tr['time']))
+    if not tr['locked'] or len(tr['locked']) < n:
+        return []
+    base = ' '.join(model_cfg(spec, tr))
+    last = tr['els'][-1]
+    mot = tr['els'][0]
+    out = []
+    dirty = False
+    first_op = True
+    for op, rec in zip(spec['ops'], tr['ops']):
+        if op['op'] != 'run':
+            dirty = True
+            first_op = False
+            continue
+        a, b = rec['n_before'], min(rec.get('n_after', rec['n_before']), n)
+        dt = F(op['dt'][0]) * code_factor('TimeInterval', op['dt'][1])
+        for j in range(a, b):
+            if j == 0:
+                if not first_op:
+                    continue
+                toks = [f"initial=1 pos={siR('AngularPosition', spec['init']['pos'])} speed={siR('AngularSpeed', spec['init']['speed'])}",
+                        f"acc=0 pwm={R(rec['pwm_before'])} locked=0 t=0 dt={R(dt)}"]
+            else:
+                if j == a and dirty:
+                    continue
+                toks = [f"pos={R(last['angular position'][j - 1])} speed={R(last['angular speed'][j - 1])}",
+                        f"acc={R(last['angular acceleration'][j - 1])} mtorque={R(mot['torque'][j - 1])} pwm={R(mot['pwm'][j - 1])}",
+                        f"locked={1 if tr['locked'][j - 1] else 0} fl0={R(mot['load torque'][0])} t={R(tr['time'][j])} dt={R(dt)}"]
+            out.append((j, 's step ' + base + ' ' + ' '.join(toks)))
+        dirty = False
+        first_op = False
+    if max_steps is not None and len(out) > max_steps:
+        stride = len(out) / max_steps
+        out = [out[int(i * stride)] for i in range(max_steps)]
+    return out
+
+
+def compare_step(tr, j, answer, rel=1e-9):
+    """None if the model's instant equals the implementation's instant j"""
+    w = answer.split()
+    if w[0] != 'ok':
+        return f'instant {j}: model answered {answer[:80]}'
+    w = w[1:]
+    r = {'pos': parse_list(w[1]), 'speed': parse_list(w[2]), 'acc': parse_list(w[3]), 'dT': parse_list(w[4]),
+         'lT': parse_list(w[5]), 'T': parse_list(w[6]), 'pwm': parse_num(w[7]),
+         'cur': None if w[8] == '-' else parse_num(w[8]), 'locked': w[9] == '1'}
+    for mk, var in VARS6:
+        sc = max([abs(e[var][j]) for e in tr['els']] + [abs(e[var][max(j - 1, 0)]) for e in tr['els']] + [1e-9])
+        if mk in ('T',):
+            sc = max([sc] + [abs(e['driving torque'][j]) for e in tr['els']] + [abs(e['load torque'][j]) for e in tr['els']])
+        if mk == 'acc':
+            sc = max(sc, 1e-6)
+        for ei, e in enumerate(tr['els']):
+            a, m = e[var][j], r[mk][ei]
+            if not (abs(a - m) <= rel * sc):
+                return f'instant {j} element {ei} {var}: {a} vs model {m} (one step from the recorded state)'
+    if abs(tr['els'][0]['pwm'][j] - r['pwm']) > 1e-9:
+        return f"instant {j}: pwm {tr['els'][0]['pwm'][j]} vs model {r['pwm']}"
+    cur = tr['els'][0].get('electric current')
+    if cur is not None and r['cur'] is not None:
+        sc = max(abs(cur[j]), abs(r['cur']), 1e-9)
+        if not abs(cur[j] - r['cur']) <= 1e-8 * sc:
+            return f"instant {j}: current {cur[j]} vs model {r['cur']}"
+    if tr['locked'][j] != r['locked']:
+        return f"instant {j}: lock flag {tr['locked'][j]} vs model {r['locked']}"
+    return None
